@@ -414,6 +414,10 @@ def behaviour_case(table, beh, strategy, rng):
 
 
 # --------------------------------------------------------------------------------------------
+def bump(chk, key, n=1):
+    chk.extra[key] = chk.extra.get(key, 0) + n
+
+
 def judge_case(chk, table, case, res):
     """returns (violation text | None, drift | None, evaluations)"""
     if "panic" in res and res["panic"] is not None:
@@ -442,6 +446,12 @@ def judge_case(chk, table, case, res):
         else:
             d = drains[di]
             in_domain = all(v < DOMAIN for v, _ in cur_orig)
+            bump(chk, "drains_judged")
+            bump(chk, "observations_recorded", sum(n for _, n in cur_orig))
+            if not in_domain:
+                bump(chk, "drains_outside_domain_2^43")
+            if strategy == "sam" and sam_ambiguous(cur_orig):
+                bump(chk, "sam_drains_not_judged_values_closer_than_1e-12")
             v = judge_property(strategy, cur_orig, d["obs"], exact and case["kind"] != "rep")
             if v is None and d["re"] != d["obs"] and not (strategy == "sam" and sam_ambiguous(cur_orig)):
                 why = same_distribution(d["obs"], d["re"])
